@@ -441,6 +441,38 @@ theorem retry_exhausts_attempts (ctx : Ctx) (max : Nat) (p : Pred) (k : Nat) (s 
   obtain ⟨a, s', h⟩ := retryGo_base_exhausts p (max - 1) k s hl hall
   exact ⟨a, s', by rw [e]; simpa [applyL, Nat.add_assoc] using h⟩
 
+/-- **Retry: an error the predicate rejects passes straight through** — for EVERY `max_attempts`, every inner service and
+whatever else the builder was told (back-off, listeners, in whichever order): one inner call, that call's error as it is. -/
+theorem retry_rejected_error_passes_unchanged (ctx : Ctx) (max : Nat) (p : Pred) (inner : Svc) (k k' : Nat)
+    (s s' : List Out) (e : Err) (h : inner k s = some (.err e, k', s')) (hp : p.holds e.kind = false) :
+    applyL ctx (.retry max p) inner k s = some (.err e, k', s') := by
+  cases hm : max - 1 with
+  | zero => simp [applyL, hm, retryGo, h]
+  | succ n => simp [applyL, hm, retryGo, h, hp]
+
+/-- … and so does a success. -/
+theorem retry_success_passes (ctx : Ctx) (max : Nat) (p : Pred) (inner : Svc) (k k' n : Nat) (s s' : List Out)
+    (h : inner k s = some (.ok n, k', s')) : applyL ctx (.retry max p) inner k s = some (.ok n, k', s') := by
+  cases hm : max - 1 with
+  | zero => simp [applyL, hm, retryGo, h]
+  | succ m => simp [applyL, hm, retryGo, h]
+
+/-- **The order of the builder's setters is not a configuration.** What the model makes of a retry layer's knobs depends on
+`ma` (attempts) and `ro` (predicate) alone: the harness's `po` (predicate installed before / after the back-off setter), `bk`
+(which of the three back-off setters), `bo`, `maf` do not enter — two headers that agree on `ma` and `ro` denote the same layer. -/
+theorem retry_configuration_is_order_free (cf cf' : List (String × String)) (rl rl' : String)
+    (hma : cfGet cf "ma" = cfGet cf' "ma") (hro : cfGet cf "ro" = cfGet cf' "ro") :
+    lcfgOf "retry" cf rl = lcfgOf "retry" cf' rl' := by
+  simp [lcfgOf, cfNat, hma, hro]
+
+/-- **The executor layer has no protective condition**: however it was told which runtime it is built on (`ex:…`), and from
+wherever the caller drives it (the model has no notion of the caller's thread: `arrive … off=1` is an `arrive`), it forwards
+once and hands the answer back under its pass-through variant. -/
+theorem executor_is_transparent_however_built (ctx : Ctx) (cf : List (String × String)) (rl : String) (inner : Svc) :
+    applyL ctx (lcfgOf "executor" cf rl) inner = through (·.wrap "executor") inner ∧
+    ∀ o, quiet ctx o (lcfgOf "executor" cf rl) = true := by
+  simp [lcfgOf, applyL, quiet]
+
 /-- **Fallback never touches a success** — any strategy, any predicate. -/
 theorem fallback_success_passes (ctx : Ctx) (st : Strat) (p : Pred) (inner : Svc) (k k' n : Nat) (s s' : List Out)
     (h : inner k s = some (.ok n, k', s')) : applyL ctx (.fallback st p) inner k s = some (.ok n, k', s') := by
@@ -533,6 +565,19 @@ example :
     denote ctx [.wrap "bulkhead", .limiter "timelimiter" 3600000, .retry 1 .all, .guard "circuit" 3 0, .bare] 0 [.err 2] =
       some (.err ⟨"bulkhead(timelimiter(circuit(", 2, 1, ")))"⟩, 1, []) := by
   refine ⟨rfl, rfl, rfl, rfl, rfl, rfl⟩
+
+/-- Wave 6: a predicate installed before the back-off setter (`po:1`) is still the layer's predicate — an error it rejects is
+forwarded once (the seeded builder re-sent it `max_attempts` times); an accepted one is retried; and the executor outermost
+over the guide's consumer stack, whatever the constructor. -/
+example :
+    let ctx : Ctx := { tag := 11, demand := 3, span := 0 }
+    let r : LCfg := .retry 3 (.kind 1)
+    lcfgOf "retry" [("ma", "3"), ("po", "1"), ("bk", "exp")] "" = lcfgOf "retry" [("bk", "fn"), ("ma", "3")] "" ∧
+    denote ctx [r] 0 [.err 2, .ok] = some (.err ⟨"", 2, 1, ""⟩, 1, [.ok]) ∧
+    denote ctx [r] 0 [.err 1, .ok] = some (.ok 2, 2, []) ∧
+    denote ctx [.wrap "executor", .limiter "timelimiter" 3600000, r] 0 [.err 2] =
+      some (.err ⟨"executor(timelimiter(", 2, 1, "))"⟩, 1, []) := by
+  refine ⟨retry_configuration_is_order_free _ _ _ _ (by simp [cfGet]) (by simp [cfGet]), rfl, rfl, rfl⟩
 
 /-! ## answers at the boundaries: transparency over the observed log
 
